@@ -142,3 +142,32 @@ Theorem C08_source_order_agrees_with_real_time : forall t d, 0 < d < 2 ^ 31 ->
   TST_gt ((t + d) mod 2 ^ 32) (t mod 2 ^ 32) = true /\ TST_gt (t mod 2 ^ 32) ((t + d) mod 2 ^ 32) = false.
 Proof. exact src_tst_real. Qed.
 Print Assumptions C08_source_order_agrees_with_real_time.
+
+(* ---- the update rule (LocationTableEntry.update_position_vector) and the expiry rule (LocationTable._is_current with an
+   explicit time) REGENERATED FROM THE SOURCE are the model's update_pv / keep, and satisfy the clauses directly -- *)
+Theorem C08_source_update_rule_is_the_model : forall e pv,
+  LocTE_update_position_vector pv (e_pv e) (e_set e) = (e_pv (update_pv e pv), e_set (update_pv e pv)).
+Proof. exact src_update_pv. Qed.
+Print Assumptions C08_source_update_rule_is_the_model.
+
+Theorem C08_source_expiry_rule_is_the_model : forall e now life_s,
+  LocT_is_current (e_set e) (e_ls e) (pv_tst (e_pv e)) now life_s = keep now (life_s * 1000) e.
+Proof. exact src_is_current. Qed.
+Print Assumptions C08_source_expiry_rule_is_the_model.
+
+Theorem C08_source_older_or_equal_never_replaces : forall stored pv t d, 0 <= d < 2 ^ 31 ->
+  nth 3 pv 0 = t mod 2 ^ 32 -> nth 3 stored 0 = (t + d) mod 2 ^ 32 ->
+  LocTE_update_position_vector pv stored true = (stored, true).
+Proof. exact src_update_never_older. Qed.
+Print Assumptions C08_source_older_or_equal_never_replaces.
+
+Theorem C08_source_newer_replaces : forall stored pv t d received, 0 < d < 2 ^ 31 ->
+  nth 3 pv 0 = (t + d) mod 2 ^ 32 -> nth 3 stored 0 = t mod 2 ^ 32 ->
+  LocTE_update_position_vector pv stored received = (pv, true).
+Proof. exact src_update_newer. Qed.
+Print Assumptions C08_source_newer_replaces.
+
+Theorem C08_source_expiry_in_real_time : forall ls N T life_s, 0 <= life_s * 1000 < 2 ^ 31 -> - 2 ^ 31 < N - T < 2 ^ 31 ->
+  LocT_is_current true ls (T mod 2 ^ 32) (N mod 2 ^ 32) life_s = (N - T <=? life_s * 1000).
+Proof. exact src_expiry_real. Qed.
+Print Assumptions C08_source_expiry_in_real_time.
